@@ -189,4 +189,14 @@ def gen_program(r, steps=12):
     g = Gen(r)
     for _ in range(steps):
         g.step()
+        # a bystander: some variable or stored hash value the last step did not assign still has its type
+        if r.random() < 0.35:
+            if g.env and r.random() < 0.6:
+                v = r.choice(sorted(g.env))
+                g.emit("dbtp %s" % v, g.env[v], "bystander variable")
+            elif g.hashes:
+                v = r.choice(sorted(g.hashes))
+                if g.hashes[v]:
+                    k = r.choice(sorted(g.hashes[v]))
+                    g.emit("dbtp %s[:%s]" % (v, k), g.hashes[v][k], "bystander hash value")
     return "\n".join(g.lines) + "\n", g.expect
